@@ -270,7 +270,7 @@ func Str(r *rng.R) string {
 	}
 }
 
-var numPool = []string{"", "0", "-0", "1", "-12", "1.5", "1e5", "1E+5", "-1.25e-7", "12345678901234567890123", "0.0", "1e", "1.", "01", "-", "+1", ".5", "1e+", "0x10", "1 ", " 1", "NaN", "1.5e", "--1", "1e1.5", "\"1\""}
+var numPool = []string{"", "0", "-0", "1", "-12", "1.5", "1e5", "1E+5", "-1.25e-7", "12345678901234567890123", "0.0", "1e", "1.", "01", "-", "+1", ".5", "1e+", "0x10", "1 ", " 1", "NaN", "1.5e", "--1", "1e1.5", "\"1\"", "1E-", "-0.5e+", "0e-", "1e+-1"}
 
 var mapSizes = []int{0, 1, 2, 3, 5, 11, 12, 13, 40, 41, 200}
 
